@@ -4,13 +4,13 @@ from pyasn1.codec.ber import decoder as ber_decoder
 from pyasn1.codec.cer import decoder as cer_decoder
 from pyasn1.codec.der import decoder as der_decoder
 from pyasn1.codec.der import encoder as der_encoder
-from pyasn1.type import constraint, namedtype, univ
+from pyasn1.type import constraint, namedtype, tag, univ
 
 from props.common import *
 from vfw import x690ref as R
 from vfw.schema import T
 
-BOUNDS = ("constrained types: SEQUENCE/SET {a, b?, c?} (WITH COMPONENTS {b PRESENT, c ABSENT}); BIT STRING SIZE (2..4) (two decodes in a row); INTEGER (0..10); INTEGER (0..20) EXCEPT (3..5 | 11..13 | 18); INTEGER (0..2 | 7 | 9 | 15..16); OCTET STRING SIZE (1..2); SEQUENCE OF INTEGER (0..10) SIZE (1..2); SET OF likewise; SEQUENCE {a INTEGER (0..10), b OCTET STRING SIZE (1..2) "
+BOUNDS = ("constrained types: types derived by narrowing a union with one of its alternatives; untagged CHOICE members located by tag; SEQUENCE/SET {a, b?, c?} (WITH COMPONENTS {b PRESENT, c ABSENT}); BIT STRING SIZE (2..4) (two decodes in a row); INTEGER (0..10); INTEGER (0..20) EXCEPT (3..5 | 11..13 | 18); INTEGER (0..2 | 7 | 9 | 15..16); OCTET STRING SIZE (1..2); SEQUENCE OF INTEGER (0..10) SIZE (1..2); SET OF likewise; SEQUENCE {a INTEGER (0..10), b OCTET STRING SIZE (1..2) "
           "OPTIONAL, c BOOLEAN DEFAULT FALSE}; SET {a, b?} ; inputs = reference encodings of a neighbouring, unconstrained type with symbolic slots (values -2..12, lengths 0..3, "
           "0..3 elements, members missing / repeated / extra / permuted, definite and indefinite length), decoders BER/CER/DER")
 OUTSIDE = "constraint kinds other than value range, exclusion/union, size, mandatory presence and WITH COMPONENTS presence/absence; deeper nesting"
@@ -108,6 +108,65 @@ def bits_twice(dec, n1, n2, v, nested):
         if msg:
             return msg
     return None
+
+
+# derivation: Port ::= INTEGER (0 | 10..20); Unpriv ::= Port (10..20); Batch ::= SEQUENCE (SIZE (1..2 | 4)) OF INTEGER; Small ::= Batch (SIZE (1..2))
+_PORT = univ.Integer().subtype(subtypeSpec=constraint.ConstraintsUnion(constraint.SingleValueConstraint(0), constraint.ValueRangeConstraint(10, 20)))
+D_C = _PORT.subtype(subtypeSpec=constraint.ValueRangeConstraint(10, 20))
+_BATCH = univ.SequenceOf(componentType=univ.Integer()).subtype(subtypeSpec=constraint.ConstraintsUnion(constraint.ValueSizeConstraint(1, 2), constraint.ValueSizeConstraint(4, 4)))
+B_C = _BATCH.subtype(subtypeSpec=constraint.ValueSizeConstraint(1, 2))
+# SET { a INTEGER (0..10), id CHOICE { n [1] INTEGER, b [2] BOOLEAN } } and SEQUENCE { x INTEGER OPTIONAL, id CHOICE .. }: the slot must hold the CHOICE type
+_IDCH = univ.Choice(componentType=namedtype.NamedTypes(
+    namedtype.NamedType("n", univ.Integer().subtype(implicitTag=tag.Tag(tag.tagClassContext, tag.tagFormatSimple, 1))),
+    namedtype.NamedType("b", univ.Boolean().subtype(implicitTag=tag.Tag(tag.tagClassContext, tag.tagFormatSimple, 2)))))
+CS_SET = univ.Set(componentType=namedtype.NamedTypes(namedtype.NamedType("a", I_C), namedtype.NamedType("id", _IDCH)))
+CS_SEQ = univ.Sequence(componentType=namedtype.NamedTypes(namedtype.OptionalNamedType("x", univ.Integer()), namedtype.NamedType("id", _IDCH)))
+CS_CH = univ.Choice(componentType=namedtype.NamedTypes(namedtype.NamedType("id", _IDCH), namedtype.NamedType("o", univ.OctetString())))
+
+
+def derived(dec, v, k, indef):
+    """Types derived by narrowing a union constraint with one of its own alternatives."""
+    w = _try(dec, bytes(R.der(N_INT, v)), D_C)
+    if w is not None:
+        msg = _after(D_C, w, None if 10 <= v <= 20 else "INTEGER %d accepted by Port (10..20)" % v)
+        if msg:
+            return msg
+    nt = T("SEQOF", elem=N_INT)
+    octets = bytes(R.ber_nd(nt, [1, 2, 3, 4, 5][:k], _Indef(indef)))
+    if dec == 2 and indef:
+        return None
+    w = _try(dec, octets, B_C)
+    if w is not None:
+        return _after(B_C, w, None if 1 <= k <= 2 else "%d elements accepted by Batch (SIZE (1..2))" % k)
+    return None
+
+
+def choice_slot(dec, shape, hx, alt, v, indef):
+    """An untagged CHOICE member located by tag (SET member, after an absent OPTIONAL member, CHOICE in CHOICE): the slot holds the CHOICE type."""
+    inner_t = T("CHOICE", comps=[("n", N_INT.tagged(("I", "C", 1)), "req", None), ("b", N_BOOL.tagged(("I", "C", 2)), "req", None)])
+    iav = ("n", v) if alt == 0 else ("b", v % 2 == 1)
+    if shape == 0:
+        spec, nt, av = CS_SET, T("SET", comps=[("a", N_INT, "req", None), ("id", inner_t, "req", None)]), {"a": 5, "id": iav}
+    elif shape == 1:
+        spec, nt = CS_SEQ, T("SEQ", comps=[("x", N_INT, "opt", None), ("id", inner_t, "req", None)])
+        av = {"id": iav}
+        if hx:
+            av["x"] = 7
+    else:
+        spec, nt, av = CS_CH, T("CHOICE", comps=[("id", inner_t, "req", None), ("o", N_OCTS, "req", None)]), ("id", iav)
+    octets = bytes(R.ber_nd(nt, av, _Indef(indef)))
+    if dec == 2 and indef:
+        raise Skip()
+    w = _try(dec, octets, spec)
+    if w is None:
+        return "a valid encoding was rejected"
+    slot = w.getComponent() if shape == 2 else w["id"]
+    msg = None
+    if not isinstance(slot, univ.Choice):
+        msg = "member id holds a %s where the type declares a CHOICE" % type(slot).__name__
+    elif slot.getName() != iav[0]:
+        msg = "wrong alternative"
+    return _after(spec, w, msg)
 
 
 def scalar_octs(dec, n, o0, o1, o2):
@@ -259,6 +318,10 @@ def setrec(dec, indef, ha, a, hb, bn, b0, dup, extra, swap):
 
 V = I(-2, 12)
 OBLIGATIONS = [
+    Obl("derived", derived, {"dec": I(0, 2), "v": I(-1, 21), "k": I(0, 5), "indef": B}, shards=[{"dec": C(d_)} for d_ in range(3)], budget=120,
+        doc="INTEGER (0 | 10..20) narrowed by (10..20); SEQUENCE (SIZE (1..2 | 4)) OF narrowed by SIZE (1..2): accepted => inside the narrowed set"),
+    Obl("choice_slot", choice_slot, {"dec": I(0, 2), "shape": I(0, 2), "hx": B, "alt": I(0, 1), "v": I(0, 3), "indef": B}, shards=[{"dec": C(d_), "shape": C(s_)} for d_ in range(3) for s_ in range(3)],
+        budget=90, doc="untagged CHOICE members located by tag keep their declared type in the decoded value"),
     Obl("presence", presence, {"dec": I(0, 2), "is_set": B, "indef": B, "a": I(-1, 11), "hb": B, "hc": B, "c": B, "nested": B},
         shards=[{"dec": C(d_), "is_set": C(s_)} for d_ in range(3) for s_ in (False, True)], budget=120,
         doc="SEQUENCE/SET with WITH COMPONENTS (b PRESENT, c ABSENT), top level and nested, definite/indefinite: accepted => the presence constraints hold"),
